@@ -250,11 +250,14 @@ PROPS["C13"] = {
     "jobs": [{"pkg": "provider/bidengine", "files": ["harness/C13/order.go"], "shims": ["shim.go.tmpl", "shim_loop.go.tmpl"],
               "quick": ["Harness_C13_fresh_7", "Harness_C13_overbid_7", "Harness_C13_existing_8"],
               "thorough": ["Harness_C13_fresh_9", "Harness_C13_overbid_7", "Harness_C13_existing_10"],
-              "opts": {"timeout": 20000, "witness": 4}, "reach": {"Harness_C13_fresh_7": ["returned"]}}],
-    "bounds": {"quick": "(*order).run with both values of checkForExistingBid; <=7 (existing-bid: 8) selects before shutdown is forced, then the post-loop clean-up and drain; <=2 chain events drawn from 6 kinds (lease won / lost / other group, order closed this / other, unrelated); every asynchronous step (group query, existing-bid query, reservation, pricing, bid broadcast, close-bid broadcast) completes ok or fails at any scheduler-chosen point, including after the loop has exited; bid timeout; shutdown at any point; strategy price below and above the order's maximum",
+              "opts": {"timeout": 20000, "witness": 4}, "reach": {"Harness_C13_fresh_7": ["returned"]}},
+             {"pkg": "provider/bidengine", "files": ["harness/C13/order.go", "harness/C13/service.go"], "shims": ["shim.go.tmpl", "shim_loop.go.tmpl"],
+              "quick": ["Harness_C13_service_3"], "thorough": ["Harness_C13_service_4"],
+              "opts": {"timeout": 20000, "witness": 4}, "reach": {"Harness_C13_service_3": ["observed"], "Harness_C13_service_4": ["observed"]}}],
+    "bounds": {"quick": "(*service).run: 0/1 catch-up order (with or without a bid from an earlier session), <=3 (thorough 4) events out of {order-created X, order-created Y, unrelated}, no monitor finishing inside the window; (*order).run with both values of checkForExistingBid; <=7 (existing-bid: 8) selects before shutdown is forced, then the post-loop clean-up and drain; <=2 chain events drawn from 6 kinds (lease won / lost / other group, order closed this / other, unrelated); every asynchronous step (group query, existing-bid query, reservation, pricing, bid broadcast, close-bid broadcast) completes ok or fails at any scheduler-chosen point, including after the loop has exited; bid timeout; shutdown at any point; strategy price below and above the order's maximum",
                "thorough": "9 / 10 selects"},
     "stubs": LOOP_STUBS,
-    "outside_claim": ["true multi-goroutine interleavings inside one component and data races", "shouldBid's auditor-signature path (no signature requirements in the harness order)", "the bidengine service's order bookkeeping"],
+    "outside_claim": ["true multi-goroutine interleavings inside one component and data races", "shouldBid's auditor-signature path (no signature requirements in the harness order)", "service level: re-announcement of an order after its monitor has finished; service shutdown/drain; in the engine newOrder is a model of the monitor's first visible effects (natively the real monitors run)"],
     "assumptions": ["an asynchronous step's effects happen atomically at its completion point"],
 }
 
@@ -294,14 +297,19 @@ PROPS["C11"] = {
     "assumptions": ["NetworkPolicy semantics as documented by Kubernetes: a pod selected by any policy of a type is isolated for that type and admits the union of all rules", "the lease namespace is not the ingress controller's namespace"],
 }
 
+C09_S = ["Harness_C09_scope_%d" % i for i in range(8)]
 PROPS["C09"] = {
     "jobs": [{"pkg": "provider/gateway/utils", "files": ["harness/C09/auth.go"], "shims": ["shim.go.tmpl", "shim_cert.go.tmpl"],
               "quick": ["Harness_C09_verify"], "thorough": ["Harness_C09_verify"], "opts": {"timeout": 20000, "witness": 8},
-              "reach": {"Harness_C09_verify": ["accepted", "genuine-accepted", "rejected", "no-certificate"]}}],
-    "bounds": {"quick": "VerifyPeerCertificate of the real NewServerTLSConfig: on-chain certificate of account X present/absent, valid/revoked, symbolic serial; presented certificate with CN in {X, another account, not an address}, issuer equal or different, same or different (symbolic) serial, the on-chain key or another key, self-signed or signed by the other key, inside/outside its validity window, with/without client-auth usage, chain length 0/1/2",
+              "reach": {"Harness_C09_verify": ["accepted", "genuine-accepted", "rejected", "no-certificate"]}},
+             {"pkg": "provider/gateway/rest", "files": ["harness/C09/scope.go"], "shims": ["shim.go.tmpl", "shim_loop.go.tmpl"],
+              "quick": C09_S, "thorough": C09_S, "opts": {"timeout": 20000, "witness": 3, "transparent": ["github.com/gorilla/context"]},
+              "reach": dict((h, ["backend-called"]) for h in C09_S[:6])}],
+    "bounds": {"quick": "VerifyPeerCertificate of the real NewServerTLSConfig: on-chain certificate of account X present/absent, valid/revoked, symbolic serial; presented certificate with CN in {X, another account, not an address}, issuer equal or different, same or different (symbolic) serial, the on-chain key or another key, self-signed or signed by the other key, inside/outside its validity window when the gateway starts and (independently) when the client connects, with/without client-auth usage, chain length 0/1/2; request scoping: every scoped route of the real newRouter (6 today, room for 8), with/without verified peer certificate, each sequence variable a symbolic uint64 / non-numeric / out of range, 3 query strings (empty, stream parameters, another owner+provider+sequence numbers), deployment active or not",
                "thorough": "same"},
-    "stubs": COMMON_STUBS + ["x509.ParseCertificate / pem.Decode / CertPool.AddCert / Certificate.Verify -> certificate tokens with the contract: Verify succeeds iff the certificate is one of the roots (identical certificate) or a CA root's key signed it (account certificates are not CAs), it is inside its validity window and carries the requested usage (natively: real certificates, real ECDSA, real crypto/x509)", "cert QueryClient -> harness stub answering from one modelled on-chain certificate"],
-    "outside_claim": ["X.509/ECDSA/TLS mathematics, PEM/DER parsing", "request scoping by tenant (requireOwner / parseLeaseID / router wiring): gorilla mux and context are not modelled - part (ii) of the statement is NOT covered", "the cert module's querier itself (C17)"],
+    "stubs": COMMON_STUBS + ["x509.ParseCertificate / pem.Decode / CertPool.AddCert / Certificate.Verify -> certificate tokens with the contract: Verify succeeds iff the certificate is one of the roots (identical certificate) or a CA root's key signed it (account certificates are not CAs), it is inside its validity window at VerifyOptions.CurrentTime (or now when zero) and carries the requested usage (natively: real certificates, real ECDSA, real crypto/x509)", "time.Now -> two-epoch harness clock (gateway start / handshake)", "cert QueryClient -> harness stub answering from one modelled on-chain certificate",
+              "gorilla/mux NewRouter/Use/PathPrefix/Subrouter/HandleFunc/Methods/Vars -> recording model in the harness (natively the real mux serves real requests)", "http.Error, writeJSON, json.NewDecoder/Decode, websocket Upgrader.Upgrade, wsEventWriter/wsLogWriter -> harness stubs (stream writers reduced to their cluster query)", "provider/cluster/manifest clients -> recording fakes"],
+    "outside_claim": ["X.509/ECDSA/TLS mathematics, PEM/DER parsing", "gorilla mux path matching and method routing", "the shell session after the websocket upgrade (cluster Exec)", "routes not under /lease/ or /deployment/", "the cert module's querier itself (C17)"],
     "assumptions": ["tls.Config.VerifyPeerCertificate is the only admission decision (InsecureSkipVerify is set by the code)"],
 }
 
